@@ -11,12 +11,20 @@ different hostile classes.  For every ray:
   total       : the entries sum to the chord inside the bounding primitive (1e-7 L);
   additivity  : trace with the merging voxel map; each source = sum of its cells' entries of the first trace;
   mask        : trace with the mask; entry of the source of an active cell = that cell's entry of the first trace;
-  active_total: sums over the active cells vs exact chord inside the active cells, (runs+1)*dt;
-  bins        : rt.bins == max(map)+1 / number of True mask cells, voxel_map/mask read back;
-  periodicity : (cylinder) the ray rotated by the period about the axis gives the same entries within 2*dt;
-  oracle_xcheck: the analytic intervals are cross-checked by >=200x finer independent midpoint sampling (a disagreement
-                is a harness error => INCONCLUSIVE, never a verdict);
-  layout      : the same voxel map handed over as int64 / float / Fortran-ordered / transposed-view / strided array.
+  active_total: sums over the active cells vs exact chord inside the active cells, (sample runs + 1)*dt;
+  bins        : rt.bins == max(map)+1 / number of True mask cells, voxel_map / mask read back, step applied;
+  periodicity : (cylinder) the ray rotated by a multiple of the period about the axis (i) satisfies the same exact chord
+                bounds (monitor periodicity_chords) and (ii) reproduces the unrotated entries within 2*dt per visit;
+  miss        : rays that miss the bounding primitive leave every entry exactly 0;
+  pipeline    : RayTransferPipeline2D on a VectorCamera firing the same rays / RayTransferPipeline0D on a SightLine
+                reproduce the directly traced entries (x sensitivity for kind='power');
+  emission_function: unit emissivity goes to exactly the source of the cell containing the point, nothing for -1;
+  layout      : the same voxel map / mask handed over as int64 / float / Fortran-ordered / transposed / strided array;
+  oracle_xcheck: the analytic intervals are cross-checked by >= 200x finer independent midpoint sampling (a
+                disagreement is a harness error => INCONCLUSIVE, never a verdict on the code).
+
+Rays tangent to the inner bounding cylinder within raysect's floating-point resolution are judged under their own keys
+(TANGENT_KEY / AXIS_HOLE_KEY, see known findings): raysect's Cylinder.hit cannot tell entering from leaving there.
 """
 import numpy as np
 
@@ -44,19 +52,23 @@ TECHNIQUE = ("runtime monitoring: reference-model oracle (exact per-cell chord i
 ASSUMPTIONS = [
     "the chord is measured inside the bounding primitive raytransfer.py builds (grid shrunk by 1e-5 cell), as the "
     "property's mechanism list states",
-    "a cell of a periodic cylinder grid visited K > 2 separate times (replicas) is judged with K*dt instead of 2*dt; "
-    "in-primitive segments shorter than 0.1*step are skipped by the integrators by design and may contribute nothing",
+    "a cell of a periodic cylinder grid visited K > 2 separate times (replicas, or a visit split by grazing the inner "
+    "ring) is judged with K*dt instead of 2*dt; in-primitive segments shorter than 0.1*step are skipped by the "
+    "integrators by design and may contribute nothing",
+    "radius_inner = 0: the 1e-5 dr hole on the axis may or may not be integrated through (both accepted)",
     "rays have max_distance = inf and unit direction; object transforms are rigid; every map keeps >= 1 active cell",
     "entries are ambiguous (any split between the adjacent cells accepted) where the ray runs within 2e-8 m of a cell face",
 ]
 QUICK = dict(cases=320, workers=2, timecap=45)
 THOROUGH = dict(cases=40000, workers=16, timecap=600)
-REQUIRED = {"cell": 20000, "total": 1000, "additivity": 5000, "mask": 5000, "active_total": 1000, "bins": 400,
-            "periodicity": 5000, "oracle_xcheck": 300, "miss": 50, "layout": 20, "pipeline": 1000,
-            "emission_function": 1000}
+REQUIRED = {"cell": 20000, "total": 500, "additivity": 5000, "mask": 5000, "active_total": 500, "bins": 400,
+            "periodicity": 5000, "periodicity_chords": 5000, "oracle_xcheck": 300, "miss": 50, "layout": 20,
+            "pipeline": 1000, "emission_function": 500}
 
 DELTA0 = 2.0e-8
-TANGENT_KEY = "cyl:ray-tangent-to-inner-bounding-cylinder:chord-before-tangent-point-lost"
+TANGENT_KEY = "cyl:ray-tangent-to-inner-bounding-cylinder:chord-before-tangent-point-lost"        # radius_inner > 0
+AXIS_HOLE_KEY = "cyl:radius_inner=0:ray-through-axis-hole:chord-before-hole-lost"
+TANGENT_KEYS = (TANGENT_KEY, AXIS_HOLE_KEY)
 
 
 # ------------------------------------------------------------------------------------------------------------
@@ -679,7 +691,13 @@ def _check_emission_function(ctx, case, g, B, vmap, geom):
                 ph = rng.uniform(0, 2 * np.pi)
             p = np.array([r * np.cos(ph), r * np.sin(ph), (idx[2] + u[2]) * g.dz])
         sp = Spectrum(500.0, 501.0, bins)
-        mat.emission_function(Point3D(*[float(x) for x in p]), Vector3D(0, 0, 1), sp, B.world, None, prim, prim.to_local(), prim.to_root())
+        try:
+            mat.emission_function(Point3D(*[float(x) for x in p]), Vector3D(0, 0, 1), sp, B.world, None, prim, prim.to_local(), prim.to_root())
+        except IndexError as e:
+            ctx.check(False, "%s:emission-function:index-out-of-range" % geom,
+                      "emission_function raises IndexError for a point inside the grid (%s)" % str(e)[:100], monitor="emission_function",
+                      cell=idx, source=int(vmap[tuple(idx)]))
+            continue
         got = np.array(sp.samples)
         want = np.zeros(bins)
         src = int(vmap[tuple(idx)])
@@ -707,7 +725,7 @@ def _interval_check(ctx, monitor, key, what, got, lo, hi, tol, **detail):
     with np.errstate(divide="ignore", invalid="ignore"):
         ratio = np.where(exc > 0, exc / tol, 0.0)
     fin = ratio[np.isfinite(ratio)]
-    if fin.size and key != TANGENT_KEY:
+    if fin.size and key not in TANGENT_KEYS:
         ctx.margin(monitor, float(fin.max()))
     if bad.any():
         i = int(np.argmax(np.where(np.isfinite(got), exc - tol, np.inf)))
@@ -793,7 +811,7 @@ def _run_case(case, ctx):
         r["key_act"] = None
         if an.tangent_inner:
             # mechanism of its own (raysect CSG, see known findings): keep judging, but under a dedicated key
-            key_cls = key_tot = key_per = r["key_act"] = TANGENT_KEY
+            key_cls = key_tot = key_per = r["key_act"] = (TANGENT_KEY if gd["ri"] > 0 else AXIS_HOLE_KEY)
             ctx.mon("tangent_to_inner_surface")
         r["key_per"] = key_per
         if L == 0.0:
@@ -848,7 +866,7 @@ def _run_case(case, ctx):
             width = an.hi - an.lo
             K = np.maximum(2, an.runs)
             # (i) the rotated ray must satisfy the same exact chord bounds (they are periodic in phi)
-            _interval_check(ctx, "periodicity_chords", r["key_per"] + ":rotated-ray-vs-exact-chords" if r["key_per"] != TANGENT_KEY else TANGENT_KEY,
+            _interval_check(ctx, "periodicity_chords", r["key_per"] + ":rotated-ray-vs-exact-chords" if r["key_per"] not in TANGENT_KEYS else r["key_per"],
                             "entries of the ray rotated by a multiple of the period differ from the exact chord lengths of the unrotated ray "
                             "by more than max(2, visits) integration steps", E3, an.lo, an.hi, K * an.dt + atol, ray=i, ray_cls=r["cls"], multiple=mult, dt=an.dt)
             # (ii) differential: same sample points up to rounding, so only samples within rounding of a cell face can move
